@@ -87,6 +87,29 @@ func cmdMutant(args []string) {
 		os.Exit(3)
 	}
 	eng.preRegister()
+	// GOWP_MUTANT_FUNC=<function key without type arguments and closure suffix>: the patch only
+	// changes that function's body. Verification is modular - callers are checked against its
+	// contract, which the patch does not touch - so only its own obligations (and its closures')
+	// can change, unless the function is executed in place by its callers (no contract of its own
+	// in this cone, or an `inline` contract); then the whole cone is run.
+	if target := os.Getenv("GOWP_MUTANT_FUNC"); target != "" {
+		var keep []PropFunc
+		inline := false
+		for _, f := range cfg.Functions {
+			if mutantNormKey(f.Key) == target {
+				keep = append(keep, f)
+				for _, fn := range eng.findFuncs(f.Key) {
+					if c := eng.contractFor(fn); c != nil && c.Inline {
+						inline = true
+					}
+				}
+			}
+		}
+		if len(keep) > 0 && !inline {
+			cfg.Functions = keep
+			cfg.MinObligations = 0
+		}
+	}
 	timeout := 20
 	if tier == "thorough" {
 		timeout = 60
@@ -124,4 +147,16 @@ func cmdMutant(args []string) {
 		os.Exit(0)
 	}
 	os.Exit(1)
+}
+
+func mutantNormKey(k string) string {
+	if i := strings.Index(k, "["); i >= 0 {
+		if j := strings.LastIndex(k, "]"); j > i {
+			k = k[:i] + k[j+1:]
+		}
+	}
+	if i := strings.Index(k, "$"); i >= 0 {
+		k = k[:i]
+	}
+	return k
 }
